@@ -173,8 +173,10 @@ class EnvModel:
                     st3.stores[c] = s3.with_entries(ents)
                 yield st3, (e.val if p else None)
 
-    def set(self, st, fam, key, val, contract=None, remove=False):
-        """generator of state after writing (fork on key aliasing)."""
+    def set(self, st, fam, key, val, contract=None, remove=False, vty=None, crate=None):
+        """generator of state after writing (fork on key aliasing).  A write to a key of an *open* family that was never read
+        first materialises the unknown previous entry (symbolic value and presence, 'lazy' event) when the value type is
+        known: a blind save / remove overwrites whatever was there, it does not create the key from nothing."""
         I = self.I
         c = contract or st.contract
         store = self.store_of(st, c)
@@ -183,6 +185,19 @@ class EnvModel:
         def rec(st, n):
             if n == len(cands):
                 s = self.store_of(st, c)
+                if not s.is_closed(fam) and vty is not None:
+                    from .symval import fresh_value
+                    val0 = fresh_value(I, st, vty, crate, 'st_%s' % fam_name(fam))
+                    pres0 = I.fresh('present_%s' % fam_name(fam), 'bool')
+                    e0 = Entry(fam, key, val0, pres0, vty)
+                    s = self.store_of(st, c)
+                    idx = len(s.entries)
+                    st.emit(('lazy', c, fam, key, idx, e0))
+                    e = e0.replace(val=None if remove else val, present=not remove)
+                    st.stores[c] = s.with_entries(s.entries + (e,))
+                    st.emit(('write', c, fam, key, e0, e, idx))
+                    yield st
+                    return
                 e = Entry(fam, key, None if remove else val, not remove)
                 st.stores[c] = s.with_entries(s.entries + (e,))
                 st.emit(('write', c, fam, key, None, None if remove else val, 'unknown-old'))
@@ -445,13 +460,17 @@ def install(S):
 
     def h_map_save(st, fn, callee, args, dty):
         key = E.term(st, args[2])
-        for st2 in E.set(st, map_fam(st, args[0]), key, I.val(st, args[3])):
+        tys = callee_tys(callee, 'Map')
+        vty = tys[1] if len(tys) > 1 else None
+        for st2 in E.set(st, map_fam(st, args[0]), key, I.val(st, args[3]), vty=vty, crate=fn.crate):
             yield st2, ok(UNIT)
     A('Map::save', r'(^|::)Map::save$', h_map_save)
 
     def h_map_remove(st, fn, callee, args, dty):
         key = E.term(st, args[2])
-        for st2 in E.set(st, map_fam(st, args[0]), key, None, remove=True):
+        tys = callee_tys(callee, 'Map')
+        vty = tys[1] if len(tys) > 1 else None
+        for st2 in E.set(st, map_fam(st, args[0]), key, None, remove=True, vty=vty, crate=fn.crate):
             yield st2, UNIT
     A('Map::remove', r'(^|::)Map::remove$', h_map_remove)
 
@@ -596,14 +615,16 @@ def install(S):
     def h_bucket_save(st, fn, callee, args, dty):
         b = I.val(st, args[0])
         key = b.fields[1] + E.term(st, args[1])
-        for st2 in E.set(st, b.fields[0], key, I.val(st, args[2])):
+        tys = bucket_tys(callee)
+        for st2 in E.set(st, b.fields[0], key, I.val(st, args[2]), vty=(tys[0] if tys else None), crate=fn.crate):
             yield st2, ok(UNIT)
     A('Bucket::save', r'Bucket::save$', h_bucket_save)
 
     def h_bucket_remove(st, fn, callee, args, dty):
         b = I.val(st, args[0])
         key = b.fields[1] + E.term(st, args[1])
-        for st2 in E.set(st, b.fields[0], key, None, remove=True):
+        tys = bucket_tys(callee)
+        for st2 in E.set(st, b.fields[0], key, None, remove=True, vty=(tys[0] if tys else None), crate=fn.crate):
             yield st2, UNIT
     A('Bucket::remove', r'Bucket::remove$', h_bucket_remove)
 
